@@ -113,7 +113,7 @@ def _cint(t):
 
 
 def _range_contains(t):
-    """RangeInclusive::contains(&(lo..=hi), &x) / Range::contains(&(lo..hi), &x) with constant bounds -> (lo, hi, x)"""
+    """RangeInclusive::contains(&(lo..=hi), &x) / Range::contains(&(lo..hi), &x) -> (lo term, hi term, inclusive?, x)"""
     name = t[1]
     if not name.endswith('::contains') or 'Range' not in name or len(t[2]) != 2:
         return None
@@ -121,12 +121,10 @@ def _range_contains(t):
     x = _unref(t[2][1])
     if r[0] == 'call' and r[1].endswith('RangeInclusive::<Idx>::new') or (r[0] == 'call' and 'RangeInclusive' in r[1] and r[1].endswith('::new')):
         a, b = r[2]
-        if _cint(a) is not None and _cint(b) is not None:
-            return _cint(a), _cint(b), x
+        return a, b, True, x
     if r[0] == 'agg' and isinstance(r[1], tuple) and r[1][0] == 'adt' and r[1][1].endswith('ops::Range') and len(r[2]) == 2:
         a, b = r[2]
-        if _cint(a) is not None and _cint(b) is not None:
-            return _cint(a), _cint(b) - 1, x
+        return a, b, False, x
     return None
 
 
@@ -158,9 +156,10 @@ class PathFacts:
         elif t[0] == 'un' and t[1] == 'Not' and op == 'eq' and isinstance(val, bool):
             self.add((t[2], 'eq', not val, c[3] if len(c) > 3 else None))
         elif t[0] == 'call' and op == 'eq' and val is True and _range_contains(t) is not None:
-            lo, hi, x = _range_contains(t)
-            self.add_cmp('Ge', x, ('const', lo, 'i128'))
-            self.add_cmp('Le', x, ('const', hi, 'i128'))
+            lo, hi, inc, x = _range_contains(t)
+            k = lambda y: ('const', _cint(y), 'i128') if _cint(y) is not None else y
+            self.add_cmp('Ge', x, k(lo))
+            self.add_cmp('Le' if inc else 'Lt', x, k(hi))
         elif op == 'eq' and isinstance(val, int) and not isinstance(val, bool):
             self.add_cmp('Eq', t, ('const', val, 'i128'))
         elif op == 'ne' and isinstance(val, tuple):
